@@ -34,9 +34,14 @@ for d in sorted(glob.glob(os.path.join(ROOT, 'seeded', '*'))):
             meta['description'] = open(os.path.join(d, 'meta.txt')).read()
     else:
         meta['origin'] = 'written by an independent sub-agent that saw only the property text and a scratch worktree of /repo'
-        meta['breaks_property'] = name.split('-')[0]
+        m = re.search(r'(?:^|-)(C\d\d)(?:-|$)', name)
+        meta['breaks_property'] = m.group(1) if m else name.split('-')[0]
         if os.path.exists(os.path.join(d, 'meta.txt')):
             meta['description'] = open(os.path.join(d, 'meta.txt')).read()
+            pm = re.search(r'^property:\s*(C\d\d)', meta['description'], re.M)
+            if pm: meta['breaks_property'] = pm.group(1)
+            nm = re.search(r'^Needs:\s*(.*)$', meta['description'], re.M)
+            if nm: meta['needs_to_manifest'] = nm.group(1)
         if os.path.exists(os.path.join(d, 'confirm.json')):
             c = json.load(open(os.path.join(d, 'confirm.json')))
             meta['confirmed_by_me'] = {k: c.get(k) for k in ('confirmed', 'suite_with_change', 'demo_with_change', 'demo_without_change')}
